@@ -371,6 +371,8 @@ def _job(job):
             i, j, "the library" if cpath is None else meta.get_node(doc, tuple(cpath))["decl"]), "d:block")
         out["nontrivial"].append(("d", name, i, j))
         out["sample"] = dict(relation="d", lib=name, span=[i, j])
+    elif kind == "e2":
+        _e2_job(job, out, fail)
     elif kind == "e":
         work = tempfile.mkdtemp(prefix="vf14_", dir=core.scratch_root())
         try:
@@ -399,6 +401,48 @@ def _job(job):
         finally:
             shutil.rmtree(work, ignore_errors=True)
     return out
+
+
+def _e2_job(job, out, fail):
+    """create_wrapper vs command line for a library whose YAML names splicer files (top-level 'splicer:' list),
+    no search path given to either, the current directory not the YAML file's directory; the files exist in
+    both directories with different contents (whichever is found, both entry points must find the same)."""
+    work = tempfile.mkdtemp(prefix="vf14e_", dir=core.scratch_root())
+    try:
+        proj = os.path.join(work, "proj")
+        os.makedirs(proj)
+        doc = meta.load(job["yaml"])
+        doc["splicer"] = {"c": ["user_c.c"], "f": ["user_f.f"]}
+        ypath = os.path.join(proj, job["name"] + ".yaml")
+        open(ypath, "w").write(meta.dump(doc))
+        where = job["where"]          # 'both' | 'cwd'
+        for d, tag in ((proj, "PROJECT"), (os.path.join(work, "a"), "BUILD"), (os.path.join(work, "b"), "BUILD")):
+            os.makedirs(os.path.join(d, "out") if d != proj else d, exist_ok=True)
+            if d == proj and where == "cwd":
+                continue
+            open(os.path.join(d, "user_c.c"), "w").write(
+                "// splicer begin C_definitions\nint vf_from_%s_c;\n// splicer end C_definitions\n"
+                "// splicer begin CXX_definitions\nint vf_from_%s_cxx;\n// splicer end CXX_definitions\n" % (tag, tag))
+            open(os.path.join(d, "user_f.f"), "w").write(
+                "! splicer begin module_top\ninteger :: vf_from_%s\n! splicer end module_top\n" % tag)
+        rel = os.path.join("..", "proj", job["name"] + ".yaml")
+        ra = shroud_run.run_argv(["--outdir", "out", rel], cwd=os.path.join(work, "a"))
+        res = shroud_run.in_child(_call_create_wrapper, (rel, "out", None), cwd=os.path.join(work, "b"))
+        out["runs"] += 2
+        fa = shroud_run.read_tree(os.path.join(work, "a", "out"))
+        fb = shroud_run.read_tree(os.path.join(work, "b", "out"))
+        a_ok, b_ok = ra.status == "ok", res["status"] == "ok"
+        if a_ok != b_ok:
+            fail("e2:status-differs", "command line: %s ; create_wrapper: %s %s" % (
+                ra.describe(), res["status"], (res.get("exc_msg") or "")[:300]))
+        elif a_ok:
+            d = meta.byte_diff(fa, fb)
+            if d:
+                fail("e2:differs", "create_wrapper output differs from the command line (splicer files %s): %s %s" % ((where,) + tuple(d[0])))
+            out["nontrivial"].append(("e2", job["name"], where))
+            out["sample"] = dict(relation="e2", lib=job["name"], where=where, files=len(fa))
+    finally:
+        shutil.rmtree(work, ignore_errors=True)
 
 
 def _call_create_wrapper(path, outdir, search):
@@ -473,6 +517,8 @@ def run(ctx):
                     jobs.append(dict(kind="a1", name=name, yaml=text, argv=[], what=what, key=key, value=value,
                                      container=list(cpath)))
         jobs.append(dict(kind="b", name=name, model=with_name_attrs(m)))
+        if i % 3 == 0:
+            jobs.append(dict(kind="e2", name=name, yaml=text, where=["both", "cwd"][(i // 3) % 2]))
         # c
         for opts_lang in smallgen.sample(st.tuples(st.lists(st.sampled_from(CLI_OPTIONS), min_size=1, max_size=3,
                                                             unique_by=lambda kv: kv[0]),
@@ -503,6 +549,12 @@ def run(ctx):
                 jobs.append(dict(kind="a3", name=name, yaml=text, argv=[], span=list(span), what=kv[0], key=kv[1], value=kv[2]))
         # ... and inside a namespace or class (ast.BlockNode: "Blocks can be added to a LibraryNode,
         # NamespaceNode or ClassNode")
+        # (systematic for class templates: every instantiation clones what the block holds)
+        for cpath, node, _l in meta.walk_decls(doc0):
+            if meta.decl_kind(node) == "template" and len(node.get("declarations") or []) >= 2:
+                nn = len(node["declarations"])
+                jobs.append(dict(kind="d", name=name, yaml=text, argv=[], span=[1, nn], cpath=list(cpath)))
+                jobs.append(dict(kind="d", name=name, yaml=text, argv=[], span=[nn - 1, nn], cpath=list(cpath)))
         for cpath in [p for p, n, _l in meta.walk_decls(doc0) if meta.decl_kind(n) in ("class", "namespace")
                       and n.get("declarations")][:2 if quick else 6]:
             nn = len(meta.get_node(doc0, cpath)["declarations"])
